@@ -37,7 +37,7 @@ CLASS_FLOORS = {"images-add-src": 5, "images-add-nosrc": 5, "images-add-unknown"
                 "images-add-binary-arches-distinct": len(domains.BINARY_ARCHES), "rpms-add-binary-arches-distinct": len(domains.BINARY_ARCHES),
                 "images-doc-1.0": 10, "images-doc-1.1": 10, "images-doc-src-and-1-binary": 5, "images-doc-src-and-3-binary": 5,
                 "images-doc-src-only-variant": 5, "images-doc-no-src": 5, "rpms-doc-src-present": 10, "rpms-doc-src-absent-for-some": 5,
-                "rpms-doc-src-only-variant": 5, "rpms-doc-several-binary-arches": 5}
+                "rpms-doc-src-only-variant": 5, "rpms-doc-several-binary-arches": 5, "rpms-doc-noncanonical-keys": 5}
 UNKNOWN = ["x86-64", "i387", "arm", "", "amd65", "source", "SRPMS", "x86_64 ", " x86_64", "sparc65", "any", "all"]
 CASE = ["X86_64", "SRC", "Src", "NOSRC", "NoArch", "I386", "Aarch64"]
 
@@ -170,7 +170,10 @@ def gen_images_doc(rng, version):
             nbin = 1
         arches = rng.sample(["x86_64", "i386", "aarch64", "ppc64le", "s390x"], nbin)
         cells = {}
-        for a in arches + (["src"] if has_src else []):
+        keys = arches + (["src"] if has_src else [])
+        # key order in a JSON file is arbitrary: sorted (as the library writes it), or shuffled
+        keys = sorted(keys) if rng.random() < 0.5 else rng.sample(keys, len(keys))
+        for a in keys:
             lst = []
             for _ in range(rng.randint(0 if a != "src" else 1, 3)):
                 at = FI.gen_image_attrs(rng)
@@ -254,9 +257,24 @@ def check_images_doc(ctx, pmi, Dc):
 
 # ---- rpms 0.3 documents ---------------------------------------------------------
 
+def spell(parts, style):
+    """A legal spelling of a NEVRA key: canonical, with '.rpm', with a leading directory, with a zero-padded epoch."""
+    s = FM.canon(parts)
+    if style == "rpm":
+        return s + ".rpm"
+    if style == "dir":
+        return "Packages/" + s
+    if style == "epoch0":
+        return "%s-0%d:%s-%s.%s" % (parts["name"], int(parts["epoch"]), parts["version"], parts["release"], parts["arch"])
+    return s
+
+
 def gen_rpms_doc(rng):
     variants = rng.sample(["Server", "Client", "Workstation"], rng.randint(1, 3))
     pool = [FM.gen_source_package(rng, i) for i in range(rng.randint(1, 4))]
+    # one spelling per package, used consistently wherever the document names it
+    for pkg in pool:
+        pkg["style"] = rng.choice(["canon", "canon", "rpm", "dir", "epoch0"])
     layout = {}
     for v in variants:
         nbin = rng.choice([0, 1, 1, 2, 3])
@@ -266,11 +284,11 @@ def gen_rpms_doc(rng):
         for a in arches:
             table = {}
             for pkg in rng.sample(pool, rng.randint(1, len(pool))):
-                skey = FM.canon(pkg["src"])
+                skey = spell(pkg["src"], pkg["style"])
                 subs = {}
                 for parts, cat in pkg["subs"]:
                     if rng.random() < 0.8:
-                        subs[FM.canon(parts)] = {"path": "%s/%s/os/Packages/%s.rpm" % (v, a, parts["name"]),
+                        subs[spell(parts, pkg["style"])] = {"path": "%s/%s/os/Packages/%s.rpm" % (v, a, parts["name"]),
                                                  "sigkey": rng.choice([None, "fd431d51", "FD431D51"]),
                                                  "type": "package" if cat == "binary" else "debug"}
                 if subs:
@@ -279,7 +297,7 @@ def gen_rpms_doc(rng):
             cells[a] = table
         src = {}
         for pkg in pool:
-            skey = FM.canon(pkg["src"])
+            skey = spell(pkg["src"], pkg["style"])
             if (skey in used or nbin == 0) and rng.random() < 0.8:
                 src[skey] = {"path": "%s/source/SRPMS/%s.src.rpm" % (v, pkg["src"]["name"]),
                              "sigkey": rng.choice([None, "fd431d51", "AB12CD34"])}
@@ -287,7 +305,12 @@ def gen_rpms_doc(rng):
             cells["src"] = src
         if cells:
             layout[v] = cells
-    return {"layout": layout}
+    canon_of = {}
+    for pkg in pool:
+        canon_of[spell(pkg["src"], pkg["style"])] = FM.canon(pkg["src"])
+        for parts, cat in pkg["subs"]:
+            canon_of[spell(parts, pkg["style"])] = FM.canon(parts)
+    return {"layout": layout, "canon": canon_of}
 
 
 def render_rpms_doc(Dc):
@@ -307,14 +330,17 @@ def check_rpms_doc(ctx, pmr, Dc):
         if len(bins) > 1:
             ctx.count("rpms-doc-several-binary-arches")
         missing = False
+        cz = Dc.get("canon", {})
         for a in bins:
             for skey, subs in cells[a].items():
-                tgt = want.setdefault(v, {}).setdefault(a, {}).setdefault(skey, {})
+                if cz.get(skey, skey) != skey:
+                    ctx.count("rpms-doc-noncanonical-keys")
+                tgt = want.setdefault(v, {}).setdefault(a, {}).setdefault(cz.get(skey, skey), {})
                 for rkey, d in subs.items():
-                    tgt[rkey] = {"path": d["path"], "sigkey": d["sigkey"].lower() if d["sigkey"] else d["sigkey"],
+                    tgt[cz.get(rkey, rkey)] = {"path": d["path"], "sigkey": d["sigkey"].lower() if d["sigkey"] else d["sigkey"],
                                  "category": "binary" if d["type"] == "package" else d["type"]}
                 if src is not None and skey in src:
-                    tgt[skey] = {"path": src[skey]["path"], "sigkey": src[skey]["sigkey"].lower() if src[skey]["sigkey"] else src[skey]["sigkey"],
+                    tgt[cz.get(skey, skey)] = {"path": src[skey]["path"], "sigkey": src[skey]["sigkey"].lower() if src[skey]["sigkey"] else src[skey]["sigkey"],
                                  "category": "source"}
                     nontrivial = True
                 else:
